@@ -423,6 +423,14 @@ func (e *Engine) execInstr(st *State, b *ssa.BasicBlock, idx int, in ssa.Instruc
 		return false
 	case *ssa.If:
 		c := e.reg(st, x.Cond)
+		if c.T == "true" {
+			e.execBlock(st, b.Succs[0], b)
+			return false
+		}
+		if c.T == "false" {
+			e.execBlock(st, b.Succs[1], b)
+			return false
+		}
 		st2 := st.clone()
 		st.assume(c.T)
 		st.trace = append(st.trace, fmt.Sprintf("b%d:T", b.Index))
